@@ -2037,7 +2037,7 @@ fn gen_workload(r: &mut Rng, n: usize, rich: bool) -> Vec<Op> {
 fn main() {
     let a = parse_args();
     let mut res = RunResult::new("C05", &a);
-    res.rule = "case = (workload, crash point): the real store runs a workload with a crash recorder snapshotting data dir + workspace at every rip_verif point; each snapshot is restarted (fresh EventLog + ContinuityStore), follow-up ops run, the oracle checks whole-store replay / 0..n per stream / acknowledged frames exactly once / numbering continues / reads equal with caches as found vs removed; the model must predict the disk shape (every line of events.jsonl and of each full sidecar as (stream, seq, frame)) at the crash point and after the follow-ups; non-trivial = crash point inside an operation that writes".into();
+    res.rule = "case = (workload, crash point): the real store runs a workload with a crash recorder snapshotting data dir + workspace at every rip_verif point; each snapshot is restarted (fresh EventLog + ContinuityStore), follow-up ops run, the oracle checks whole-store replay / 0..n per stream / acknowledged frames exactly once / numbering continues / reads equal with caches as found vs removed; the model must predict the disk shape (every line of events.jsonl and of each full sidecar as (stream, seq, frame)) at the crash point and after the follow-ups; non-trivial = crash point inside an operation that writes; in addition every DISTINCT recovered store is restarted once per kind of writer (manual / auto / scheduled compaction, cursor rotate, run_spawned, run_ended, tool side effects, selection, compiled, cursor, branch, handoff) with that kind as the first append on every thread, then a message on every thread (oracle only: streams 0,1,2,.., replay_validated, acknowledged frames once, full sidecar and replay_events of a fresh store = the log for every thread that got an append); the classes of the open cache findings are keyed by file state AND crash window (notes/crash4.md)".into();
     let scratch = Scratch::new("c05");
     let mut w = CaseWriter::new(&a.out, "Model.Crash", "check_case", "model_obs", 60);
     let mut distinct = Distinct::default();
